@@ -161,6 +161,26 @@ class MovingRunner(hh.Runner):
         except Violation as v:
             raise Violation(v.monitor, where + v.detail)
         self.ctx.count("long_lived_judgements")
+        raw = self.db.raw() if trie is self.trie else None
+        if raw and self.rnd.random() < 0.25:
+            # some node bodies are away for a moment: queries may fail (that is C07's business);
+            # once the bodies are back the SAME iterator must answer as before
+            from trie.exceptions import MissingTraversalNode, MissingTrieNode
+
+            hide = self.rnd.sample(sorted(raw), max(1, len(raw) // 3))
+            self.db.hide(hide)
+            try:
+                for q in [b""] + sorted(model)[:3]:
+                    cut(it.next, q, expect=(MissingTraversalNode, MissingTrieNode))
+                cut(lambda: list(it.keys()), expect=(MissingTraversalNode, MissingTrieNode))
+            finally:
+                for h in hide:
+                    self.db.supply(h)
+            self.ctx.count("queries_on_incomplete_database")
+            try:
+                judge(it, trie, model, RefTrie(model), self.rnd, self.ctx, max_queries=6)
+            except Violation as v:
+                raise Violation(v.monitor, where + "after queries that failed on a temporarily incomplete database: " + v.detail)
         if self.rnd.random() < 0.3:
             # the consumer edits, in place, the node bodies it was handed (they are its own):
             # the iterator must not be holding on to them
@@ -221,6 +241,22 @@ def run_shard(ctx):
         run_case_guarded(mod, case, ctx)
         if ctx.full:
             return
+    # SCALE: a "fat ladder" - 70 nested levels with all 16 children in use at each (about 1100
+    # keys of up to 36 bytes): more than a thousand prefixes are pending at once during a walk
+    top = bytes(rnd.randrange(256) for _ in range(36))
+    nb = [n for b in top for n in (b >> 4, b & 15)]
+    hist = []
+    for lvl in range(0, 70):
+        for x in range(16):
+            if x != nb[lvl]:
+                path = nb[:lvl] + [x] + ([0] if (lvl + 1) % 2 else [])
+                key = bytes(path[i] * 16 + path[i + 1] for i in range(0, len(path), 2))
+                hist.append(["set", key.hex(), bytes([65 + x]).hex() * (1 if lvl % 7 else 35), 0])
+    rnd.shuffle(hist)
+    fat = {"prune": False, "hist": hist, "pseed": rnd.randrange(1 << 30), "prime": False, "universe": "fat-ladder"}
+    if ctx.shard % 4 == 0 or ctx.tier == "thorough":
+        run_case_guarded(mod, fat, ctx)
+        ctx.count("fat_ladders")
     for i in range(80 if ctx.tier == "quick" else 800):
         case = hh.gen_history(rnd, rnd.randint(2, 16 if ctx.tier == "quick" else 40), batch_p=0.25)
         if i == 0:
